@@ -17,6 +17,12 @@ def conform(rep, prop, groups, profiles=('release',), prefix='s', maxlen=3000, k
         t1 = time.time()
         traces = vlib.exec_shards(binary, shards, '%s-%s-' % (prefix, prof))
         t2 = time.time()
+        if prop != 'C01':
+            for tr in traces:
+                with open(tr) as f:
+                    for line in f:
+                        if '"argerr":["' in line:
+                            raise ToolError('scenario option set rejected by the argument parser: %s' % line[:300])
         res = vlib.validate(traces, prop)
         t3 = time.time()
         rep.add_validation(res, key_fn)
@@ -821,6 +827,13 @@ def model_and_scenarios(rep, module, cfg_text, what, emit=True, workers=1, timeo
     finally:
         os.remove(os.path.join(vlib.SPEC, cfg))
     rep.add_model(r, what)
+    if emit and workers > 1:
+        # several workers print concurrently: every transition must have produced one well-formed line
+        n = sum(1 for l in r['out'].split('\n') if scn.SCN.match(l.strip()))
+        if n != r['transitions'] - 1:
+            log('scenario lines %d != transitions %d: re-running %s with one worker' % (n, r['transitions'] - 1, module))
+            rep.models.pop(); rep.states -= r['states']; rep.transitions -= r['transitions']
+            return model_and_scenarios(rep, module, cfg_text, what, emit, 1, timeout)
     return scn.parse_scenarios(r['out']) if emit else set()
 
 
@@ -833,6 +846,8 @@ CONSTANTS
   DeleteAfter = 60
   Ticks <- TickSet
   MaxSteps = %d
+  Batch <- One
+  TickResetsCtr = FALSE
 INVARIANT InvFold
 INVARIANT InvExpiry
 INVARIANT InvCount
@@ -898,3 +913,298 @@ def c11(tier):
 
 
 CHECKS['C11'] = c11
+
+
+# ----------------------------------------------------------------------------------------- C12
+EXP_CFG = """SPECIFICATION Spec
+CONSTANTS
+  Alphabet <- AlphaLit
+  Filt <- NoFilt
+  OptR = FALSE
+  OptU = FALSE
+  DeleteAfter = %d
+  Ticks <- TickSet
+  MaxSteps = %d
+  Batch <- Batches
+  TickResetsCtr = TRUE
+INVARIANT InvFold
+INVARIANT InvExpiry
+INVARIANT InvCount
+PROPERTY Isolation
+VIEW View
+CHECK_DEADLOCK FALSE
+"""
+
+
+def runs_of_scenario(sc, alpha, opts):
+    """a model path -> reset + multi-line reader runs separated by ticks (step k + 1000*(n-1) = frame k, n times)"""
+    g = [reset(opts)]
+    cur = []
+    for st in sc:
+        if st < 0:
+            if cur:
+                g.append(runn(cur)); cur = []
+            g.append(tick(-st))
+        else:
+            k, n = st % 1000, st // 1000 + 1
+            cur += [alpha[k - 1]] * n
+    if cur:
+        g.append(runn(cur))
+    return g
+
+
+def leaves(scs):
+    """scenarios that are not a proper prefix of another one"""
+    pre = set()
+    for sc in scs:
+        for i in range(len(sc)):
+            pre.add(sc[:i])
+    return [sc for sc in scs if sc not in pre]
+
+
+def realtime_crosscheck(binary):
+    """stamp shifting must agree with real elapsed time (-d 1, 1.2 s): otherwise the simulation is not faithful"""
+    a, b = 0x4d0001, 0x4d0002
+    fa = df17(5, a, me_ident(4, 1, callsign_codes('REAL')))
+    fb = [short(5, enc_squawk(1, 1, 1, 1), b)] * 12
+    outs = []
+    for mode in ('sleep', 'tick'):
+        cmds = [reset(['-d', '1']), run1(fa), ({'c': 'sleep', 'ms': 1200} if mode == 'sleep' else tick(1200)), runn(fb),
+                reset(['-d', '5']), run1(fa), ({'c': 'sleep', 'ms': 1200} if mode == 'sleep' else tick(1200)), runn(fb)]
+        tr = vlib.sqv_exec(binary, cmds, 'realtime-' + mode)
+        outs.append([e['k1'] for e in vlib.read_ndjson(tr) if e['e'] == 'run'])
+    if outs[0] != outs[1]:
+        raise ToolError('stamp shifting disagrees with real time: %s vs %s' % (outs[0], outs[1]))
+    return outs[0]
+
+
+def c12(tier):
+    rep = Report('C12', tier)
+    rng = random.Random(vlib.seed())
+    alpha = scn.parse_literal_alphabet('expiry')
+    groups = []
+    cfgs = [(2, 4)] if tier == 'quick' else [(2, 5), (1, 4), (5, 4)]
+    for D, depth in cfgs:
+        scs = model_and_scenarios(rep, 'MC_expiry', EXP_CFG % (D, depth),
+                                  'expiry model: 3 aircraft, 5 frames, batches {1,10,11}, delete_after %d s, ticks D-1/D/D+1 s, depth %d: '
+                                  'InvExpiry (present while heard, stamp = last heard, stale rows gone within 12 frames of a run)' % (D, depth),
+                                  workers=8)
+        lv = leaves(scs)
+        rep.extra.setdefault('model_leaf_scenarios', 0)
+        rep.extra['model_leaf_scenarios'] += len(lv)
+        for i, sc in enumerate(sorted(lv)):
+            groups.append(runs_of_scenario(sc, alpha, ['-d', str(D)] + (['-U'] if i % 2 else [])))
+    # random schedules: every format as the refreshing frame, delete_after in {1,5,60,600,86400}
+    nr = 40 if tier == 'quick' else 1500
+    for h in range(nr):
+        D = rng.choice([1, 5, 60, 600] + ([86400] if tier == 'thorough' else []))
+        opts = ['-d', str(D)] + (['-U'] if h % 2 else []) + (['-R'] if h % 3 == 0 else [])
+        acs = [0x4c0000 + rng.getrandbits(10) for _ in range(rng.randrange(2, 5))]
+        pools = {a: other_format_frames(a, rng) for a in acs}
+        g = [reset(opts)]
+        for _ in range(rng.randrange(4, 12)):
+            n = rng.choice([1, 2, 5, 11, 12, 13, 25])
+            focus = rng.sample(acs, rng.randrange(1, len(acs) + 1))
+            lines = [rng.choice(pools[rng.choice(focus)]) for _ in range(n)]
+            g.append(runn(lines))
+            g.append(tick(rng.choice([0, (D - 1) * 1000, D * 1000 - 100, D * 1000, D * 1000 + 100, (D + 1) * 1000, 2 * D * 1000]) or 1))
+        groups.append(g)
+    binary = vlib.build_harness('release')
+    rt = realtime_crosscheck(binary)
+    rep.notes.append('real-time cross-check of stamp shifting passed: %s' % rt)
+    conform(rep, 'C12', groups, maxlen=3000)
+    rep.rule = ('(i) every maximal path of the bounded expiry model (TLC; delete_after/depth %s; frames fed in batches of 1/10/11 so that the '
+                '12-frame sweep is reached) replayed as multi-line reader runs separated by stamp shifts of D-1, D, D+1 s, with and without -U; '
+                '(ii) %d random schedules over every supported format with delete_after in {1,5,60,600%s}, silences on both sides of and at '
+                'the limit, runs of 1..25 frames. Judged per run: heard < delete_after ago => present; stale at run start, silent, >= 12 '
+                'accepted frames => gone; stamp restarts with every accepted frame; re-heard after a sweep => fresh row. Non-trivial = run '
+                'with an aircraft definitely stale or definitely fresh; distinct by (lines, slot)' %
+                (cfgs, nr, ',86400' if tier == 'thorough' else ''))
+    vlib.nt_floor(rep, 50)
+    return rep
+
+
+CHECKS['C12'] = c12
+
+
+# ---------------------------------------------------------------------------------------- replay
+def replay(prop, path):
+    """re-executes the scenario of a replay file against the current tree and validates it again"""
+    r = json.load(open(path))
+    sc = r.get('scenario')
+    if not sc:
+        print('replay file has no scenario (model-level or sweep violation): %s' % (r.get('model_output') or '')[-1500:])
+        return 2
+    rep = Report(prop, 'quick')
+    profs = ('checked', 'release') if prop == 'C01' else ('release',)
+    for prof in profs:
+        binary = vlib.build_harness(prof)
+        tr = vlib.sqv_exec(binary, sc, 'replay-' + prof)
+        res = vlib.validate([tr], prop)
+        rep.add_validation(res)
+    for v in rep.viol:
+        print('REPRODUCED predicate=%s tag=%s event=%s' % (v['pred'], v['tag'], v['i']))
+    for what, n in rep.known_hits.items():
+        print('KNOWN-FINDING: property=%s %s' % (prop, what))
+    if rep.viol:
+        print('VIOLATION property=%s replay=%s' % (prop, path))
+        return 1
+    print('not reproduced on the current tree')
+    return 0
+
+
+# ----------------------------------------------------------------------------------------- C13
+def junk_lines(rng):
+    good = df17(5, 0x4ca7b5, me_ident(4, 1, callsign_codes('JUNK')))
+    J = [[], [0], [0] * 17, list(range(0x80, 0x100)), [0xC3], [0xE2, 0x82], [0xF0, 0x9F], [13], [13, 13], [32] * 40,
+         list(b'hello world'), list(b'*;'), list(good[:13].encode()), list(good[:27].encode()), list((good + '0').encode()),
+         list((good + good).encode()), list(F.flip(good, [40]).encode()), list(F.flip(df11(5, 0x4ca7b5), [20]).encode()),
+         list(good[:14].encode()), list(('%012X' % 5 + good[:13]).encode()), [0xFF] + list(good[:10].encode()),
+         list(good.encode())[:20] + [0x80, 0x81], [0xEF, 0xBB, 0xBF], list(b'0123456789ABCDEF' * 4200)]
+    J.append([rng.choice(b'0123456789abcdefXYZ \t*;') for _ in range(66000)])
+    return J
+
+
+def recorded_lines(name, limit, rng=None, start=0):
+    p = os.path.join(vlib.REPO, 'rec', name)
+    out = []
+    with open(p, 'rb') as f:
+        for i, l in enumerate(f):
+            if i < start:
+                continue
+            l = l.rstrip(b'\n')
+            out.append(list(l))
+            if len(out) >= limit:
+                break
+    return out
+
+
+def c13(tier):
+    rep = Report('C13', tier)
+    rng = random.Random(vlib.seed())
+    J = junk_lines(rng)
+    groups = []
+    npairs = 150 if tier == 'quick' else 6000
+    rec = recorded_lines('squitters.txt', 4000 if tier == 'quick' else 40000)
+    for k in range(npairs):
+        opts = OPTSETS[k % 4]
+        if k % 3 == 0:
+            st = rng.randrange(0, len(rec) - 60)
+            clean = [l for l in rec[st:st + rng.randrange(5, 50)]]
+        else:
+            acs = [0x4ca000 + rng.getrandbits(8) for _ in range(1 + k % 3)]
+            pool = []
+            for a in acs:
+                pool += other_format_frames(a, rng)
+            clean = [list(rng.choice(pool).encode()) for _ in range(rng.randrange(3, 25))]
+        dirty = list(clean)
+        if k < len(clean) * 0 + 40 and len(clean) < 12:
+            # every position for short streams
+            pos = list(range(len(clean) + 1))
+        else:
+            pos = sorted(rng.sample(range(len(clean) + 1), min(len(clean) + 1, rng.randrange(1, 6))), reverse=True)
+        for p_ in sorted(pos, reverse=True):
+            j = rng.choice(J[:-2]) if rng.random() < 0.97 else rng.choice(J[-2:])
+            dirty.insert(p_, j)
+        tag = {'pair': 'c13'}
+        groups.append([reset(opts, slot=0), reset(opts, slot=1), runn(dirty, slot=0, tag=tag), runn(clean, slot=1, tag=tag)])
+    conform(rep, 'C13', groups, maxlen=400)
+    rep.rule = ('%d stream pairs: a valid stream (shuffled generated frames of 1..3 aircraft, or a slice of rec/squitters.txt) and the same '
+                'stream with junk lines inserted (empty, NUL, 0x80-0xFF, truncated UTF-8, lone CR, blanks, text, truncated / over-long / '
+                'doubled frames, corrupted squitters, BOM, 66 KB lines) at every position (short streams) or random positions, each run as one '
+                'multi-line reader run under the four option sets; TLC checks that the accepted-frame subsequences are equal and then that '
+                'the two tables are equal up to time stamps and both runs completed. Non-trivial = pair whose streams differ in length' % npairs)
+    vlib.nt_floor(rep, 50)
+    return rep
+
+
+CHECKS['C13'] = c13
+
+
+# ----------------------------------------------------------------------------------------- C19
+def valid_value_frames(a, rng):
+    """DF4/5/11/17 frames whose carried values are all valid (no Gillham codes, no 'no information' fields)"""
+    lat, lon = rng.uniform(-60, 60), rng.uniform(-170, 170)
+    fr = []
+    for _ in range(3):
+        fr.append(short(4, enc_alt13(rng.randrange(0, 45000, 25)), a, rng.getrandbits(14)))
+        fr.append(short(5, rng.getrandbits(13), a, rng.getrandbits(14)))
+        fr.append(df11(rng.choice([0, 4, 5, 7]), a, rng.choice([0, 0, 11])))
+        fr.append(df17(5, a, me_ident(rng.randint(1, 4), rng.getrandbits(3), [rng.choice([1, 5, 20, 26, 48, 57, 32]) for _ in range(8)])))
+        for odd in (0, 1):
+            lat += rng.uniform(-0.002, 0.002); lon += rng.uniform(-0.002, 0.002)
+            y, x = cpr_encode(lat, lon, odd)
+            fr.append(df17(5, a, me_airpos(rng.choice([9, 11, 12, 18]), rng.getrandbits(2), enc_alt12(rng.randrange(0, 45000, 25)), odd, y, x)))
+        fr.append(df17(5, a, me_velocity(rng.choice([1, 1, 2]), rng.getrandbits(1), rng.randint(1, 1023), rng.getrandbits(1), rng.randint(1, 1023),
+                                         rng.getrandbits(1), rng.randint(1, 511))))
+        fr.append(df17(5, a, me_opstatus(rng.randint(0, 2))))
+        y, x = cpr_encode(lat, lon, 0)
+        fr.append(df17(5, a, me_airpos(rng.choice([20, 21, 22]), rng.getrandbits(2), rng.getrandbits(12), 0, y, x)))
+    return fr
+
+
+def c19(tier):
+    rep = Report('C19', tier)
+    rng = random.Random(vlib.seed())
+    wd = vlib.workdir()
+    groups = []
+    rec = recorded_lines('squitters.txt', 3000 if tier == 'quick' else 30000)
+    pres = [('i', ['-i', 'aAews']), ('i', ['-i', 'e']), ('i', ['-i', 'Q', '-i', 'w']), ('o', ['-o', 'N']), ('o', ['-o', 'dV']), ('c', ['-c']),
+            ('u', ['-u', '0']), ('u', ['--update=-1']), ('u', ['-u', '1000']), ('M', ['-M', '17', '-M', '4']),
+            ('D', ['-D', os.path.join(wd, 'downlink.log')])]
+    nrep = 2 if tier == 'quick' else 30
+    for rep_i in range(nrep):
+        for name, extra in pres:
+            base = rng.choice([[], ['-U'], ['-R'], ['-U', '-R']])
+            if rng.random() < 0.5:
+                st = rng.randrange(0, len(rec) - 80)
+                lines = rec[st:st + rng.randrange(20, 70)]
+            else:
+                pool = []
+                for a in [0x4b1000 + rng.getrandbits(8) for _ in range(1 + rep_i % 3)]:
+                    pool += other_format_frames(a, rng)
+                lines = [rng.choice(pool) for _ in range(rng.randrange(10, 40))]
+            g = [{'c': 'reset', 'opts': ['-i', 'Q'] + base, 'slot': 0}, {'c': 'reset', 'opts': (['-i', 'Q'] if name != 'i' else []) + base + extra, 'slot': 1}]
+            tag = {'pair': 'c19', 'opt': name}
+            for l in lines:
+                g.append(run1(l, slot=0, tag=tag))
+                g.append(run1(l, slot=1, tag=tag))
+                if rng.random() < 0.05:
+                    g.append(tick(rng.choice([3000, 9000, 11000])))
+            groups.append(g)
+        # -O affects the distance only
+        for obs in ('90,0', '10.5, -20.25', 'garbage'):
+            lines = valid_value_frames(0x4b2000 + rep_i, rng)
+            rng.shuffle(lines)
+            g = [reset(['-U'] if rep_i % 2 else [], slot=0, obs='-45, 170'), reset(['-U'] if rep_i % 2 else [], slot=1, obs=obs)]
+            tag = {'pair': 'c19o', 'opt': 'O'}
+            for l in lines:
+                g += [run1(l, slot=0, tag=tag), run1(l, slot=1, tag=tag)]
+            groups.append(g)
+    # -U neutrality on valid-value DF4/5/11/17 histories
+    nu = 12 if tier == 'quick' else 600
+    for h in range(nu):
+        acs = [0x4b3000 + rng.getrandbits(8) for _ in range(1 + h % 3)]
+        pool = []
+        for a in acs:
+            pool += valid_value_frames(a, rng)
+        R = ['-R'] if h % 4 == 0 else []
+        g = [reset(R, slot=0), reset(R + ['-U'], slot=1)]
+        tag = {'pair': 'c19u', 'opt': 'U'}
+        for _ in range(60):
+            if rng.random() < 0.12:
+                g.append(tick(rng.choice([3000, 9000, 11000, 30000])))
+            l = rng.choice(pool)
+            g += [run1(l, slot=0, tag=tag), run1(l, slot=1, tag=tag)]
+        groups.append(g)
+    conform(rep, 'C19', groups, maxlen=3000)
+    rep.rule = ('paired executions of the same history in two tables whose option sets differ in one named option: -i (3 variants incl. '
+                'non-quiet), -o, -c, -u (0, -1, 1000), -M, -D (full rows compared after every line, stamps excluded), -O (all but the distance), '
+                'and -U on %d random histories of valid-value DF4/5/11/17 frames for 1..3 aircraft with clock steps (the nine listed '
+                'parameters compared after every line). Histories: slices of rec/squitters.txt and generated frames. Non-trivial = paired '
+                'step in which the table changed' % nu)
+    vlib.nt_floor(rep, 200)
+    return rep
+
+
+CHECKS['C19'] = c19
